@@ -80,7 +80,12 @@ def plant(fault, level, delta, w, n):
         else:
             add(Inst("bad", bleaf, {"b": Anon((("x", Sig("k")), ("y", Orphan(1, 1)))), "g": g}))
     elif fault == 15:  # no-connect that is also referenced
-        add(Inst("src", cell, {"a": bus, "b": NC(7)})); add(Inst("bad", cell, {"a": bus, "b": PRef("src", "b")}))
+        if delta > 0 and w >= 2:  # directly
+            add(Inst("src", cell, {"a": bus, "b": NC(7)})); add(Inst("bad", cell, {"a": bus, "b": PRef("src", "b")}))
+        elif w >= 2:   # through a slice of the reference, inside a concatenation
+            add(Inst("src", cell, {"a": NC(7), "b": g})); add(Inst("bad", cell, {"a": Cat((Slc(PRef("src", "a"), 1, w), Idx(Sig("k"), 0))), "b": g}))
+        else:          # as a member of an anonymous bundle
+            add(Inst("src", cell, {"a": bus, "b": NC(7)})); add(Inst("bad", bleaf, {"b": Anon((("x", Sig("k")), ("y", PRef("src", "b")))), "g": g}))
     elif fault == 16:  # pair: shared scalar of the wrong width
         m.sigs.append(("wrong", wd)); add(Inst("bad", pcell, {"q": Sig("wrong"), "g": g}, kind="pair"))
     elif fault == 17:  # instantiation cycle
